@@ -399,7 +399,7 @@ def behaviour(kind, obj, term, probes):
         elif kind == "rule":
             out.append(c10.rule_fp(obj, pr))
         else:
-            out.append(c13.schema_beh(obj, pr))
+            out.append(c13.schema_beh(obj, pr, reasons=False))  # (the reason texts name operands in their own order)
     return out
 
 
